@@ -166,6 +166,22 @@ def sub_lifecycle_family():
                     cfg["dsts"] = ["mc", "a1", "a2", "a3", "a4", "a5"]
                     out.append({"cfg": cfg, "ev": monpass.add_adv(ev), "sched": sched, "variant": v, "ann0": ["I1"], "rand": rand,
                                 "insts": ["I1"], "t_extra": 14, "diag": {"variant": v, "family": name}})
+    # a subscription accepted while the instance is still in its initial wait phase; the service is stopped before its first offer
+    for v in ("D", "E", "C"):
+        tc = TIMINGS[v]
+        for init in range(max(1, tc["initMin"]), tc["initMax"] + 1):
+            for ttl in (3, 16777215):
+                for kind, stop in (("ann", {"op": "ann_stop"}), ("inst", {"op": "stop_announce", "inst": "I1"}), ("connlost", {"op": "connlost"})):
+                    sched = [{"t": 0, "j": 0, "op": "ann_start"}, rx(0, 1, 1, ttl, True), dict(stop, t=init - 1 if init > 1 else 0, j=2),
+                             {"t": init + 2, "j": 0, "op": "ann_start"}, rx(init + 4, 0, 2, ttl, True)]
+                    if kind == "inst":
+                        sched[3] = {"t": init + 2, "j": 0, "op": "announce", "inst": "I1"}
+                    rand = [init, init, init, init]
+                    ev, _ = annenv.run_schedule(sched, tc, ["I1"], ann0=["I1"], rand=list(rand), t_extra=14)
+                    cfg = annenv.mon_cfg(tc, ["I1"], ["I1"])
+                    cfg["dsts"] = ["mc", "a1", "a2", "a3", "a4", "a5"]
+                    out.append({"cfg": cfg, "ev": monpass.add_adv(ev), "sched": sched, "variant": v, "ann0": ["I1"], "rand": rand,
+                                "insts": ["I1"], "t_extra": 14, "diag": {"variant": v, "family": "subscribed in the initial wait, stopped before the first offer: " + kind}})
     return out
 
 
